@@ -84,6 +84,12 @@ type htmler struct{ s string }
 
 func (h htmler) HTML() template.HTML { return template.HTML(h.s) }
 
+// htmlerStringer is trusted HTML through HTML() and also prints as something else through String().
+type htmlerStringer struct{ s string }
+
+func (h htmlerStringer) HTML() template.HTML { return template.HTML(h.s) }
+func (h htmlerStringer) String() string      { return "stringer{" + h.s + "}" }
+
 type listIter struct {
 	xs  []interface{}
 	pos int
@@ -122,6 +128,9 @@ func materialize(a absVal, env *runEnv) interface{} {
 	case "html":
 		if a.Go == "htmler" {
 			return htmler{decodeChars(a.S)}
+		}
+		if a.Go == "htmlerstringer" {
+			return htmlerStringer{decodeChars(a.S)}
 		}
 		return template.HTML(decodeChars(a.S))
 	case "time":
@@ -191,6 +200,13 @@ func materialize(a absVal, env *runEnv) interface{} {
 		}
 		return xs
 	case "map":
+		if a.Go == "htmlmap" {
+			m := map[string]template.HTML{}
+			for k, v := range a.maps() {
+				m[k] = template.HTML(decodeChars(v.S))
+			}
+			return m
+		}
 		m := map[string]interface{}{}
 		for k, v := range a.maps() {
 			m[k] = materialize(v, env)
